@@ -190,7 +190,9 @@ func recordOne(tid int, rng *rand.Rand) ([]tev, []string, error) {
 			relRun()
 		case "StartAsync":
 			r.log("call", p, 0, o.name, nil)
-			err := svc.StartAsync(parent)
+			// the parent's Done method (called by StartAsync where it derives the service context) yields the
+			// processor, so that the racing calls of the other processes overlap StartAsync's critical section
+			err := svc.StartAsync(yieldingCtx{parent})
 			res := "ok"
 			if err != nil {
 				res = "?" + err.Error()
@@ -414,4 +416,14 @@ func corruptTrace(evs []tev) {
 			return
 		}
 	}
+}
+
+// yieldingCtx is a parent context whose Done method gives the processor away a few times before answering.
+type yieldingCtx struct{ context.Context }
+
+func (y yieldingCtx) Done() <-chan struct{} {
+	for i := 0; i < 4; i++ {
+		runtime.Gosched()
+	}
+	return y.Context.Done()
 }
